@@ -68,13 +68,16 @@ func init() {
 		Rule: "one child process per level registry (index 0 = built-ins only, others = 2-5 random custom levels: negative, = MaxLevel, above it, with/without treat-as and error device). Inside a child the admission table is enumerated completely: " +
 			"logger levels x severities (registry + one unregistered) x debug-mode histories (off, on directly, on as a side effect of SetLevel/WithLevel/package SetLevel(Debug), off again) x 4 logger kinds (root as Logger, root as *Entry, child, default) x every public entry point " +
 			"(12 verbs + Println, 12 Context verbs, LogAttrs, Logit, Log with 10 log/slog levels, Infof/Warnf/Errorf, Verbose x2, and the package-level twins). A cell = one call; oracle: (bytes reached any recording writer) == admit(L, r, debug) and Enabled/EnabledContext == admit. " +
+			"Every call that takes a context is given, in turn, a live one, one with values, a cancelled one and one whose deadline has passed; registries also hold values that do not fit 32 bits. " +
+			"overlap: 17-96 goroutines issue one call each on one logger (and a child of it) while every earlier admitted call is still held inside the destination's Write; the number of Writes must equal the number of calls the rule admits, each admitted id exactly once. " +
 			"non-trivial = every executed cell; distinct = by (kind, entry, L, r, history)",
 		Assumptions: []string{"OK/Success count as Info and Fail as Error when gated (the library's documented built-in treat-as table)", "SetLevel(Debug) on the logger under test itself switches debug mode on (modelled)", "LnoInterrupt is set in the child so that Panic/Fatal severities can be issued"},
-		Floors:      map[string]int64{"cells": 5000, "records_emitted": 1000, "calls_silent": 1000},
+		Floors:      map[string]int64{"cells": 5000, "records_emitted": 1000, "calls_silent": 1000, "overlap_calls_admitted": 300},
 		Exhaustive:  func(string) bool { return true },
 		Jobs: func(tier string, seed int64) []Job {
 			n := pick(tier, 6, 1000)
-			return chunk("table", "prod", n, 1, Job{Timeout: 20 * time.Minute})
+			js := chunk("table", "prod", n, 1, Job{Timeout: 20 * time.Minute})
+			return append(js, chunk("overlap", "prod", pick(tier, 60, 6000), pick(tier, 30, 400), Job{Timeout: 20 * time.Minute})...)
 		},
 	})
 	register(&Plan{
